@@ -81,8 +81,23 @@ def run(payload):
                     fc3 = FieldCollection.from_data([ScalarField, VectorField, Tensor2Field], g, fc._data_full.copy(), with_ghost_cells=True)
                     if not all(np.array_equal(a.data, b.data) for a, b in zip(fc, fc3)):
                         fail("from_data", grid=repr(g))
+                    # flat data without ghost cells; complex data with non-zero imaginary parts (the documented rule maps
+                    # real dtypes to double, so only the values are compared)
+                    flat = fc.data * (1 + 0.5j) if np.iscomplexobj(fc.data) else fc.data.copy()
+                    fc4 = FieldCollection.from_data([ScalarField, VectorField, Tensor2Field], g, flat, with_ghost_cells=False)
+                    if not np.array_equal(fc4.data, flat):
+                        fail("from_data_without_ghost_cells", grid=repr(g), dtype=str(dtype), dtype_restored=str(fc4.dtype), max_dev=float(np.max(np.abs(fc4.data - flat))))
                 except Exception as e:
                     fail("from_data_error", grid=repr(g), error=f"{type(e).__name__}: {e}")
+                # sliced grids (grids with their own axis names): copies keep the axes
+                try:
+                    if g.num_axes >= 2:
+                        sub = g.slice([g.num_axes - 1])
+                        for how, c in (("copy", sub.copy()), ("from_state", type(sub).from_state(sub.state))):
+                            if list(c.axes) != list(sub.axes):
+                                fail("sliced_grid_axes_lost", how=how, grid=repr(g), axes=list(sub.axes), axes_restored=list(c.axes))
+                except Exception as e:
+                    fail("slice_error", grid=repr(g), error=f"{type(e).__name__}: {e}")
     return {"ok": True, "cases": cases, "failures": fails}
 
 
